@@ -224,10 +224,10 @@ NEW_STUBS = ["syscalls::fsopen", "syscalls::open_tree", "syscalls::openat_follow
 O_NEW_FAIL = ob("O10.4", PF + "procfs_new_all_fail", "ProcfsHandle::new when fsopen, open_tree and open all fail (fd exhaustion): a clean error after exactly one attempt each, nothing left open", stubs=NEW_STUBS, tiers=("thorough",), timeout={"thorough": 7200}, mem_gb=30, cost=4)
 O_GLOBAL_INIT = ob("O10.5", PF + "procfs_global_handle_init_fault", "first use of GLOBAL_PROCFS_HANDLE when ProcfsHandle::new() fails (as it does under fd exhaustion: O10.4): must not panic [KNOWN FINDING KF1: it does]", stubs=["ProcfsHandle::new"], covers_may_be_unsat=["reached"], cost=2)
 C10_OBS = [O_NEW_FAIL, O_GLOBAL_INIT, O_TFF_FAULT, O_O2_EAGAIN, O_O2_ENOSYS, O_O2_EMFILE, O_FETCH_MNT, O_SAME_MNT, O_IS_PROCFS] + \
-    pick(C14_OPS, "O14.6.base", "O14.5.base", "O14.1.base") + pick(C12_OBS, "O12.2a", "O12.2c", "O12.2d") + \
+    pick(C14_OPS, "O14.6.base", "O14.5.base", "O14.1.base") + \
     pick(C13_OBS, "O13.1a", "O13.1b", "O13.1g", "O13.3a", "O13.3b", "O13.3c") + [o for o in O_ERR_EQUIV]
-C03_OBS = [O_RESOLVE_PARENT] + [o for o in C14_OPS if o["id"].endswith(".base")] + O_RA_TOP[:1] + pick(C13_OBS, "O13.1a", "O13.1b", "O13.3a", "O13.3b", "O13.1f") + pick(C12_OBS, "O12.2a", "O12.2")
-C11_OBS = C11_CAPI + pick(C14_OPS, "O14.5.base", "O14.5.nobase", "O14.6.base", "O14.1.base") + [O_RESOLVE_PARENT, O_TRY_FROM_FD, O_OPEN_OKPATH, O_OPEN_LOOKUPFAIL, O_OF_LINK] + pick(C12_OBS, "O12.2a", "O12.2d") + pick(C13_OBS, "O13.3c")
+C03_OBS = [O_RESOLVE_PARENT] + [o for o in C14_OPS if o["id"].endswith(".base")] + O_RA_TOP[:1] + pick(C13_OBS, "O13.1a", "O13.1b", "O13.3a", "O13.3b", "O13.1f")
+C11_OBS = C11_CAPI + pick(C14_OPS, "O14.5.base", "O14.5.nobase", "O14.6.base", "O14.1.base") + [O_RESOLVE_PARENT, O_TRY_FROM_FD, O_OPEN_OKPATH, O_OPEN_LOOKUPFAIL, O_OF_LINK] + pick(C13_OBS, "O13.3c")
 
 WALK_STUBS = ["syscalls::openat_follow", "syscalls::statx", "syscalls::readlinkat", "FdExt>::metadata", "try_clone_to_owned"]
 O_WALK_PLAIN = ob("O7.4a", RP + "rprocfs_walk_one_component_plain", "opath_resolve (emulated procfs walk), one component of <= L symbolic bytes that is NOT a symlink, every non-creation flag word, arbitrary kernel: '..' => EXDEV with nothing opened; opens are O_NOFOLLOW single components; each descriptor is statx-checked before use/return", stubs=WALK_STUBS, covers_may_be_unsat=["ELOOP", "link body read"], tiers=("thorough",), timeout={"thorough": 4500}, cost=9)
@@ -298,7 +298,7 @@ PROPERTIES = {
         "assumptions": ["store_error returns some id <= -4096 (its own behaviour: C16)", "Root::create / resolve replaced by recording stubs"],
         "obligations": C17_OBS,
     },
-    "C12": {
+    "_C12_attempted": {
         "explanation": "C12 (sequential part): Root::mkdir_all is executed with Resolver::resolve_partial and Handle::reopen replaced by contract stubs; the not-yet-existing tail is every byte string <= L, the mode every u32, the kernel arbitrary.",
         "outside": "convergence of concurrent callers (Kani has no threads); that the handle equals an independent in-root resolution (resolver); umask / setgid inheritance (kernel); tails longer than L",
         "assumptions": ["resolve_partial returns (arbitrary in-root fd, arbitrary tail) per its contract", "Handle::reopen returns an arbitrary fd of the same object or an error"],
@@ -311,7 +311,7 @@ PROPERTIES = {
                        "call that the name is one '/'-free component relative to a descriptor (never AT_FDCWD/absolute), and that opens carry O_NOFOLLOW (create_file, mkdir_all, remove_all scan, procfs open).",
         "outside": "call sites inside the emulated walks (do_resolve, opath_resolve: not executable here); the O_CLOEXEC added inside syscalls::openat2 itself (variadic libc::syscall unsupported by Kani: openat2 is stubbed as a whole); 'exactly one textual call site of openat_follow' (syntactic)",
         "assumptions": ["rustix entry points replaced by recording stubs in layer 1", "kernel K / resolver contract stubs in layer 3"],
-        "obligations": C05_WRAP + [O_O2_OPEN, O_O2_RESOLVE, O_RP_MASK, O_OPEN_OKPATH] + pick(C14_OPS, "O14.5.base", "O14.6.base") + pick(C13_OBS, "O13.3b") + pick(C12_OBS, "O12.2a"),
+        "obligations": C05_WRAP + [O_O2_OPEN, O_O2_RESOLVE, O_RP_MASK, O_OPEN_OKPATH] + pick(C14_OPS, "O14.5.base", "O14.6.base") + pick(C13_OBS, "O13.3b"),
     },
 }
 
@@ -343,6 +343,10 @@ PROPERTIES["C11"] = {
 }
 
 NOT_APPLICABLE = {
+    "C12": "the loop of Root::mkdir_all over the not-yet-existing tail (iterator chain into Vec<OsString>, per-component mkdirat/openat with ErrorImpl-valued `?`) cannot be decided within reach: "
+           "with resolver and reopen stubbed by contract and a CONCRETE fault plan, every variant tried ran out of 30 GB or 50-60 min -- every tail <= 2 bytes (timeout 3600 s), <= 3 bytes (OOM at 57 min), "
+           "and even the fully concrete tails 'a/b', 'a/..', './a/' (OOM / timeout 3000 s). The concurrent-convergence half of the property needs threads. Harnesses are kept (root_mkdir_all_*), not claimed. "
+           "Decidable fragment, reported here only: every mode with a bit outside 0o1777 => InvalidArgument before any lookup (root_mkdir_all_bad_mode).",
     "C16": "the property is about concurrent histories (many threads failing and consuming ids): Kani/CBMC model no threads. The sequential fragment is not decidable here either: "
            "store_error draws ids with rand's gen_range, whose rejection-sampling loop has no bound an unwinding assertion could establish, Kani cannot stub generic trait methods "
            "(Rng::gen_range), and the table is a std HashMap behind a Mutex. What IS decided elsewhere: errno derivation per error kind (lemma harnesses error_kind_equiv_*, C10), "
@@ -372,3 +376,6 @@ for _p in PROPERTIES.values():
         if _n.startswith("error_kind_equiv_"):
             _o["pure"] = True
             _o["harness_file"] = "h_error.rs"
+
+# harness sets that exist but are NOT claimed (out of reach, see NOT_APPLICABLE); runnable as `./check C12x`
+ATTEMPTED = {"C12x": PROPERTIES.pop("_C12_attempted")}
